@@ -25,3 +25,11 @@ Print Assumptions C14_params_and_operators_persist_their_arguments.
 Theorem C14_tables_are_not_empty : Nat.leb 40 (List.length class_table) = true /\ Nat.leb 300 functions_analysed = true.
 Proof. exact table_nonempty. Qed.
 Print Assumptions C14_tables_are_not_empty.
+
+(* the two arguments EVERY transform persists, `always_apply` and `p`, are written from the attributes of the same
+   name -- the constructor values themselves, not a derived ("effective") value: an always-apply transform keeps its
+   own p, which is its selection weight inside OneOf / SomeOf (regenerated from BasicTransform.get_base_init_args) *)
+Theorem C14_every_transform_persists_its_own_p_and_always_apply :
+  base_args_table = [("always_apply", "always_apply"); ("p", "p")].
+Proof. exact base_args_ok. Qed.
+Print Assumptions C14_every_transform_persists_its_own_p_and_always_apply.
